@@ -51,8 +51,10 @@ class RandomsBase(HandlesDataChunk):
             has_redshifts=redshifts is not None,
         )
         self.reseed(seed)
-        self.weights = weights
-        self.redshifts = redshifts
+        # samples are drawn by position: sequences and pandas Series (whatever
+        # their index) are accepted and behave like the equivalent array
+        self.weights = None if weights is None else np.asarray(weights)
+        self.redshifts = None if redshifts is None else np.asarray(redshifts)
         self.data_size = self.get_data_size()
 
     def get_data_size(self) -> int:
